@@ -148,6 +148,8 @@ def present_pair(c, rng, disjoint=False):
         d["B"] = {"fin": list(A["fin"]), "rules": [list(r) for r in A["rules"]]}
         d["bmode"] = rng.choice(["alias", "copy"])
         d["syms"] = syms_of(A)
+    if c.get("op") in ("incl", "union", "isect", "uniondisj") and rng.random() < 0.1:
+        d["amode"] = "copy"        # a copy of A (sharing its storage) is alive during the call and read back afterwards
     if c.get("op") == "incl" and rng.random() < 0.3:
         d["relcopy"] = True        # the simulation is handed over as a copy whose source variable is re-used (see harness runIncl)
     if c.get("op") == "incl" and len(A["rules"]) >= 2 and rng.random() < 0.15:
